@@ -174,6 +174,36 @@ class RecListener(Listener):
                        "sol": snapshot_solution(solution, objs), "same_sd": searchData is self.run.solver.searchData})
 
 
+class SharedRecListener(Listener):
+    """ONE listener object attached to several solvers (a console or recording listener reused for a series of runs): every
+    notification is recorded in the run of the solver it came from."""
+
+    def __init__(self, runs, full=False):
+        self.runs = runs
+        self.full = full
+
+    def _run(self, pred):
+        for r in self.runs:
+            if pred(r):
+                return r
+        return None
+
+    def BeforeMethodStart(self, method):
+        r = self._run(lambda x: x.solver.method is method)
+        if r is not None:
+            RecListener.BeforeMethodStart(RecListener(r, self.full), method)
+
+    def OnEndIteration(self, savedNewPoints, solution):
+        r = self._run(lambda x: x.solver.GetResults() is solution)
+        if r is not None:
+            RecListener.OnEndIteration(RecListener(r, self.full), savedNewPoints, solution)
+
+    def OnMethodStop(self, searchData, solution, status):
+        r = self._run(lambda x: x.solver.searchData is searchData)
+        if r is not None:
+            RecListener.OnMethodStop(RecListener(r, self.full), searchData, solution, status)
+
+
 def partial_listener(run, subset, full=True):
     """A listener class derived from the base Listener that overrides exactly the callbacks in `subset`
     (the others stay the base-class no-ops) and records what it is told."""
